@@ -50,7 +50,7 @@ def replay(path):
     scen = os.path.join(vlib.sub("scn"), "one.ndjson")
     with open(scen, "w") as f:
         f.write(json.dumps(scn) + "\n")
-    out = vlib.replay("sync", scen, nshards=1, timeout=120)
+    out = vlib.replay(doc.get("engine", "sync"), scen, nshards=1, timeout=120)
     if out.errors:
         raise vlib.Inconclusive(str(out.errors))
     if out.failures or out.crashes or out.timeouts:
